@@ -187,6 +187,8 @@ pkt("typical-discover", "\n".join(U % x for x in ["OptMessageType(dhcpv4.Message
 pkt("typical-ack", "\n".join(U % x for x in ["OptMessageType(dhcpv4.MessageTypeAck)", "OptServerIdentifier(net.IP{10, 0, 0, 1})", "OptIPAddressLeaseTime(3600 * time.Second)", "OptSubnetMask(net.IPMask{255, 255, 255, 0})", "OptRouter(net.IP{10, 0, 0, 1})", "OptDNS(net.IP{10, 0, 0, 2}, net.IP{10, 0, 0, 3})", 'OptDomainName("example.org")', "OptClasslessStaticRoute(&dhcpv4.Route{Dest: &net.IPNet{IP: net.IP{10, 9, 0, 0}, Mask: net.CIDRMask(16, 32)}, Router: net.IP{10, 0, 0, 4}})"]))
 pkt("everything-typed", "\n".join(U % x for x in ["OptMessageType(dhcpv4.MessageTypeOffer)", "OptParameterRequestList(dhcpv4.OptionDomainName, dhcpv4.OptionRouter, dhcpv4.OptionSubnetMask)", "OptRouter(net.IP{10, 0, 0, 2}, net.IP{10, 0, 0, 1})", "OptDNS(net.IP{10, 0, 0, 3})", "OptClasslessStaticRoute(&dhcpv4.Route{Dest: &net.IPNet{IP: net.IP{10, 9, 0, 0}, Mask: net.CIDRMask(16, 32)}, Router: net.IP{10, 0, 0, 4}})", 'OptRFC3004UserClass([]string{"b", "a"})', "OptVIVC(dhcpv4.VIVCIdentifier{EntID: 9, Data: []byte{3, 2, 1}})", "OptClientArch(iana.EFI_X86_64, iana.INTEL_X86PC)", 'OptDomainSearch(&rfc1035label.Labels{Labels: []string{"b.example.org", "a.example.com"}})', "OptRelayAgentInfo(dhcpv4.OptGeneric(dhcpv4.AgentRemoteIDSubOption, []byte{0xee}), dhcpv4.OptGeneric(dhcpv4.AgentCircuitIDSubOption, []byte(\"c\")))", "OptIPAddressLeaseTime(3600 * time.Second)", "OptSubnetMask(net.IPMask{255, 255, 255, 0})", "OptMaxMessageSize(576)", "OptAutoConfigure(dhcpv4.DoNotAutoConfigure)", 'OptHostName("h")', "OptGeneric(dhcpv4.GenericOptionCode(224), []byte{9})"]))
 add(K, "built/malformed-typed-values", "v := " + BASE4 + "\nv.Options = dhcpv4.Options{55: {}, 3: {10, 0, 0}, 121: {24, 10}, 82: {1}, 77: {5, 'a'}, 124: {0, 0, 0, 9, 7, 1}, 93: {0}, 119: {0xc0}, 53: {1, 2}, 51: {0, 0, 1}, 1: {255, 255}, 57: {1}, 116: {}, 54: {1, 2, 3, 4, 5}}")
+add(K, "built/relay-agent-info-repeated-suboptions", "v := " + BASE4 + "\nv.Options = dhcpv4.Options{82: {1, 2, 'a', 'b', 1, 3, 'c', 'd', 'e', 2, 1, 'r'}, 53: {1}}")
+add(K, "built/relay-agent-info-interleaved-suboptions", "v := " + BASE4 + "\nv.Options = dhcpv4.Options{82: {1, 2, 'a', 'b', 2, 2, 'r', 's', 1, 3, 'c', 'd', 'e', 9, 0}, 43: {1, 1, 'x', 1, 2, 'y', 'z'}, 53: {1}}")
 add(K, "built/zero-length-values", "v := " + BASE4 + "\nv.Options = dhcpv4.Options{12: {}, 254: {}, 55: {}, 82: {}, 43: nil}")
 add(K, "built/pad-and-end-keys-in-map", "v := " + BASE4 + "\nv.Options = dhcpv4.Options{0: {1}, 255: {2}, 53: {1}}")
 add(K, "built/nil-options-map", "v := " + BASE4 + "\nv.Options = nil")
